@@ -32,6 +32,7 @@ for sid in sorted(last):
     elif n.get("open") and not any(c["violation"] for c in r["checks"].values()):
         first = "**missed and still open** — " + n.get("note", "")
         open_.append(sid)
+        per_round[rnd][0] += 1
     elif not r["checks"].get(own, {}).get("violation"):
         first = "not visible to %s by construction; caught by the property that owns the clause" % own
         bydesign.append(sid)
@@ -63,7 +64,7 @@ property that owns the broken clause:
 BYDESIGN_LIST
 %d were caught by the checks as built; %d were missed by the first version of the aimed check and led to the
 strengthenings listed in `seeded/RESULTS.md` (%d of those were caught from the start by a neighbouring check).
-First misses per round: %s. The share fell only slowly, which is the honest measure of what remains: another author
+First misses per round (including the ones still open): %s. The share fell only slowly, which is the honest measure of what remains: another author
 would still find dimensions the generators hold fixed (and in the later rounds more and more seeds broke a clause
 that another property owns — those are listed above and are caught there). The misses fell into three classes:
 
